@@ -46,7 +46,9 @@ def group_decoder_summaries(ctx, sn, rep, P):
                 if e[0] == 'outcome' and e[1][0] == 'app':
                     deps.add(e[1][1])
             # canonicity guards seen on the path
-            tags = [e for e in p.events if e[0] == 'assume' and e[1][0] == 'app' and e[1][1] == 'first' and isinstance(e[2], int)]
+            # the first byte read as `bytes.first()` or as `bytes[0]` / a slice pattern
+            tags = [e for e in p.events if e[0] == 'assume' and e[1][0] == 'app' and isinstance(e[2], int) and (
+                e[1][1] == 'first' or (e[1][1] == 'index' and len(e[1][2]) == 2 and e[1][2][1] == Int(0)))]
             reenc = [e for e in p.events if e[0] == 'assume' and e[2] == 1 and e[1][0] == 'app' and e[1][1] in ('eq', 'ct_eq')
                      and any(x == Sym('bytes') for x in e[1][2])]
             if 'elliptic_curve::public_key::PublicKey::from_sec1_bytes' in deps:
